@@ -103,7 +103,7 @@ theorem C_eval_sub {te te' : C.TyEnv} (hs : Sub te te') (s : Store) (m : C.Mode)
   | var x => simp only [C.eval]
   | bin op a b iha ihb =>
     simp only [Expr.wt, Bool.and_eq_true] at h
-    simp only [C.eval, iha h.1.1.1, ihb h.1.1.2]
+    simp only [C.eval, iha h.1.1, ihb h.1.2]
   | neg a iha =>
     simp only [Expr.wt, Bool.and_eq_true] at h
     simp only [C.eval, iha h.1]
@@ -134,6 +134,9 @@ theorem C_eval_sub {te te' : C.TyEnv} (hs : Sub te te') (s : Store) (m : C.Mode)
     have ht : C.typeOf te' (.mm k a b) = C.typeOf te (.mm k a b) := by
       rw [typeOf_eq_inferTy te' _ (wt_sub hs _ h0).1, typeOf_eq_inferTy te _ h0, (wt_sub hs _ h0).2]
     simp only [C.eval, iha h.1.1.1, ihb h.1.1.2, ht]
+  | toStr a iha =>
+    simp only [Expr.wt, Bool.and_eq_true] at h
+    simp only [C.eval, iha h.1]
 
 /-! ### Python side -/
 
